@@ -238,6 +238,7 @@ class FnAnalysis:
             cal = strip(n["inner"][0]); name = cal.get("referencedDecl", {}).get("name")
             if name == "splinetable_free": return "wrapperFree"
             if name in NOTHROW_FUNCS and in_handler: return None
+            if qt(cal).rstrip().endswith("noexcept"): return None     # declared noexcept (e.g. numeric_limits<>::quiet_NaN)
             return "other"
         if k == "CXXOperatorCallExpr":
             cal = strip(n["inner"][0]); name = cal.get("referencedDecl", {}).get("name")
@@ -377,8 +378,9 @@ def lean_bool(b): return "true" if b else "false"
 
 
 def emit(an_list, F, repo):
-    o = ["/-! GENERATED by tools/gen_c18.py from src/cinter/splinetable.cpp — do not edit; regenerated on every run of the C18 check. -/",
-         "import PsV.Model.CApi", "namespace PsV.Generated.C18", "open PsV.CApi", ""]
+    o = ["import PsV.Model.CApi",
+         "/-! GENERATED by tools/gen_c18.py from src/cinter/splinetable.cpp — do not edit; regenerated on every run of the C18 check. -/",
+         "namespace PsV.Generated.C18", "open PsV.CApi", ""]
     for a in an_list:
         calls = ", ".join("⟨.%s, %s, .%s⟩" % (c["op"], lean_bool(c["guarded"]), c["disp"]) for c in a.calls)
         o.append("def w_%s : Wrapper :=\n  { name := %s, ret := .%s, nullChecked := [%s], derefsData := %s,\n    guardFails := %s, handlerFails := %s, finalSucceeds := %s,\n    calls := [%s] }" % (
